@@ -20,6 +20,7 @@ import (
 	"bytes"
 	"encoding/binary"
 	"errors"
+	"unicode"
 	"unicode/utf16"
 
 	"github.com/sassoftware/relic/v8/lib/redblack"
@@ -224,5 +225,12 @@ func lessDirEnt(i, j interface{}) bool {
 	if e.NameLength != f.NameLength {
 		return e.NameLength < f.NameLength
 	}
-	return e.name < f.name
+	// [MS-CFB] 2.6.4: names of equal length compare by their upper-cased UTF-16 code units
+	for k := range e.NameRunes {
+		x, y := unicode.ToUpper(rune(e.NameRunes[k])), unicode.ToUpper(rune(f.NameRunes[k]))
+		if x != y {
+			return x < y
+		}
+	}
+	return false
 }
